@@ -279,18 +279,23 @@ class Renderer:
         if not m2:
             raise ExtractError('block needs to "<b>": %r' % rest)
         ka = int(m2.group(1)) if m2.group(1) else None
-        b, rest = parse_quoted(rest[m2.end():])
-        m3 = re.fullmatch(r'\s*(?:#(\d+))?\s*', rest)
-        kb = int(m3.group(1)) if m3 and m3.group(1) else None
+        to_end = rest[m2.end():].strip() == 'end'
+        if not to_end:
+            b, rest = parse_quoted(rest[m2.end():])
+            m3 = re.fullmatch(r'\s*(?:#(\d+))?\s*', rest)
+            kb = int(m3.group(1)) if m3 and m3.group(1) else None
         s, f = self.locate_fn(rel, path)
         flo, fhi = f['sig_open'] + 1, f['body_close']
         ha = s.find_anchor(a, flo, fhi, ka)
         if len(ha) != 1:
             raise ExtractError('block %s: from-anchor %r matches %d times' % (path, a, len(ha)))
-        hb = s.find_anchor(b, ha[0], fhi, kb)
-        if len(hb) < 1 or (kb is None and len(hb) != 1):
-            raise ExtractError('block %s: to-anchor %r matches %d times after from-anchor' % (path, b, len(hb)))
-        lo, hi = ha[0], hb[0] + len(b)
+        if to_end:
+            lo, hi = ha[0], fhi
+        else:
+            hb = s.find_anchor(b, ha[0], fhi, kb)
+            if len(hb) < 1 or (kb is None and len(hb) != 1):
+                raise ExtractError('block %s: to-anchor %r matches %d times after from-anchor' % (path, b, len(hb)))
+            lo, hi = ha[0], hb[0] + len(b)
         head = contract = tail = ''
         name = None
         for sd in d['subs']:
